@@ -9,7 +9,7 @@ ID = "C01"
 
 
 def feat(prog):
-    f = modelir.features(prog) & {"vmap", "scan", "cond", "vdist", "call", "kwargs", "event"}
+    f = modelir.features(prog) & ({"vmap", "scan", "cond", "vdist", "call", "kwargs", "event"} | set(modelir.NEST_KINDS))
     return "+".join(sorted(f)) or "flat"
 
 
@@ -83,7 +83,7 @@ def classify(case, ctx=None, n1=600):
     # (b) simulate in several execution modes; coherence; cross-mode agreement for one key
     k0 = env.key(case["key"], 1)
     traces = {}
-    modes = ["seed", "jit", "vmapkeys"] + ([] if "scan" in F else ["unseeded"])
+    modes = ["seed", "jit", "vmapkeys"] + ([] if modelir.features(prog) & {"scan", "vscan", "scanv"} else ["unseeded"])
     for mode in modes:
         try:
             if mode == "seed":
@@ -110,7 +110,7 @@ def classify(case, ctx=None, n1=600):
                 fails.append((f"get_args[{mode}]|{F}", f"get_args()={a} does not round-trip the call's arguments {(jargs, jkw)}"))
         except ImplError as e:
             fails.append((f"get_args_raises:{e.sig()}|{F}", str(e)))
-    if "seed" in traces:
+    if "seed" in traces and not any(".accessor_raises" in b for b, _ in fails):
         base = gfi.flat(gfi.to_np(traces["seed"].get_choices()))
         for mode in ("jit", "vmapkeys"):
             if mode in traces:
@@ -120,7 +120,7 @@ def classify(case, ctx=None, n1=600):
                     fails.append((f"modes_disagree[seed-vs-{mode}]|{F}", f"same key, different choices at {bad[:4]}: {[(base[p].tolist(), other.get(p, np.nan).tolist()) for p in bad[:2]]}"))
 
     # (c) the law of simulate
-    if not any(b.startswith("simulate_raises") for b, _ in fails):
+    if not any(b.startswith("simulate_raises") or ".accessor_raises" in b for b, _ in fails):
         fails += law(case, gf, ref, rargs, rkw, jargs, jkw, F, info, ctx, n1)
     return fails, info
 
@@ -155,7 +155,7 @@ def run_shard(ctx):
         fails, info = classify(case, ctx, P["n1"])
         prog = case["prog"]
         fs = modelir.features(prog)
-        nt = (modelir.n_leaf_sites(prog) >= 2 and "dep" in fs) or bool(fs & {"vmap", "scan", "cond", "vdist", "call"})
+        nt = (modelir.n_leaf_sites(prog) >= 2 and "dep" in fs) or bool(fs & {"vmap", "scan", "cond", "vdist", "call", "nest"})
         ctx.case(case, nt, [f"C01.prog_with_{f}" for f in sorted(fs)] + [f"C01.law_{info.get('law', 'none')}"],
                  sample={"program": prog, "args": case["args"], "kwargs": case["kwargs"], "info": info})
         for b, w in fails:
@@ -169,6 +169,8 @@ def run_shard(ctx):
     forces = [None, "scan", "vmap", "cond", "vdist", "call"]
     drive(ctx, strat(False, forces[ctx.shard % len(forces)]), n - n // 3, one, "cont")
     drive(ctx, strat(True, forces[(ctx.shard + 1) % len(forces)]), n // 3, one, "disc")
+    nk = modelir.NEST_KINDS  # combinators applied directly to combinators
+    drive(ctx, strat(ctx.shard % 3 == 2, nk[ctx.shard % len(nk)]), P.get("n_nest", max(2, n // 3)), one, "nest")
 
 
 def replay(case):
